@@ -40,6 +40,7 @@ def run(ctx):
     r6_process_dependent(ctx)
     r7_hash_order(ctx)
     r8_shared_objects(ctx)
+    r9_generators_travel_with_their_position(ctx)
 
 
 # ------------------------------------------------------------------------------------------ R1
@@ -605,6 +606,28 @@ def r7_hash_order(ctx):
                 ctx.ob("C01.R7", rel, qual, e, f"set iterated via {how} only under sorted()/an order-insensitive aggregate", ok,
                        stmt=f"{how}:{unparse(e)}", detail=detail)
     ctx.floor("C01.R7", "set-typed iteration sites", n, 1)
+
+
+def r9_generators_travel_with_their_position(ctx, rule="C01.R9"):
+    """a component that reaches a worker is a pickled copy: a CobaRandom it holds must arrive at the position it had (a component used by one triple is NOT copied
+    in-process, so there it simply continues)."""
+    ctx.rule(rule, "pickling / deep-copying a CobaRandom preserves its stream position: __reduce__ (or __getstate__) carries more than the seed -- otherwise a deterministic user "
+                   "component that drew from its generator before the run continues in-process but restarts its stream on a worker")
+    RNDF = "coba/random.py"
+    c = ctx.model.cls(RNDF, "CobaRandom")
+    red = c.methods.get("__reduce__")
+    gs = c.methods.get("__getstate__")
+    carries = False
+    node = red or gs or c.node
+    if red is not None:
+        for r in [r for r in walk_shallow(red) if isinstance(r, ast.Return) and isinstance(r.value, ast.Tuple)]:
+            t = r.value
+            carries = len(t.elts) >= 3 or (len(t.elts) == 2 and isinstance(t.elts[1], ast.Tuple) and len(t.elts[1].elts) >= 2)
+    elif gs is not None:
+        carries = True
+    else:
+        carries = False   # default pickling fails on the generator objects
+    ctx.ob(rule, RNDF, "CobaRandom.__reduce__", node, "the pickled form of a generator includes its position in the stream, not only its seed", carries, stmt="CobaRandom pickled with its position")
 
 
 def r8_shared_objects(ctx):
